@@ -949,9 +949,38 @@ STABLE_OPS = ("emplace", "popback", "clear", "erase", "eraserange")
 
 def oracle_C16(L, K, lines, steps, spec):
     v = []
-    for i in range(1, min(len(steps), len(spec))):
+    last = {}      # slot -> its most recent observation (every operation observes what it touches)
+
+    def where(ov):
+        return [[(f[0], f[1]) for f in e["fields"]] for e in ov["elems"]]
+
+    for i in range(0, min(len(steps), len(spec))):
         sp = spec[i]
         op = sp["op"]
+        # swap / move construction exchange / hand over ownership: every stored object keeps the
+        # address it had in the OTHER vector (seeded change C16i: swap left the fixed sizes behind)
+        if op in ("swap", "movector") and len(sp["args"]) >= 2 and sp["args"][0] != sp["args"][1]:
+            x, y = sp["args"][0], sp["args"][1]
+            pairs = ((y, x), (x, y)) if op == "swap" else ((y, x),)
+            for src, dst in pairs:
+                b, a = last.get(src), steps[i]["vecs"].get(dst)
+                if b is None or a is None:
+                    continue
+                if a["bid"] != b["bid"] or a["dbeg"] != b["dbeg"]:
+                    v.append("step %d %s: vector %d does not hold the block vector %d held" % (i, op, dst, src))
+                elif where(a) != where(b):
+                    v.append("step %d %s: objects of vector %d are not where they were in vector %d: %r -> %r" % (i, op, dst, src, where(b)[:2], where(a)[:2]))
+                elif a["fixed"] != b["fixed"]:
+                    v.append("step %d %s: vector %d has fixed sizes %r, vector %d had %r" % (i, op, dst, a["fixed"], src, b["fixed"]))
+        prev = dict(last)
+        for s_, ov_ in steps[i]["vecs"].items():
+            last[s_] = ov_
+        for s_ in steps[i].get("null", {}):
+            last.pop(s_, None)
+        for s_ in steps[i].get("gone", []):
+            last.pop(s_, None)
+        if i == 0:
+            continue
         if not sp["args"]:
             continue
         s = sp["args"][0]
